@@ -154,6 +154,54 @@ func (o *Origins) condFacts(c ssa.Value, truth bool, out *[]*Fact, depth int) {
 	}
 }
 
+// altFacts lists, for a boolean phi reached with the given outcome, one fact set per input that can produce that
+// outcome: what is known when the value came through that input (the input's own facts and the branch edges on
+// the single-predecessor chain above it). nil when c is not such a phi or fewer than two inputs survive.
+func (o *Origins) altFacts(c ssa.Value, truth bool) [][]*Fact {
+	for {
+		u, ok := c.(*ssa.UnOp)
+		if !ok || u.Op != token.NOT {
+			break
+		}
+		c, truth = u.X, !truth
+	}
+	phi, ok := c.(*ssa.Phi)
+	if !ok || !isBool(phi.Type()) {
+		return nil
+	}
+	var out [][]*Fact
+	for i, in := range phi.Edges {
+		if k, ok := in.(*ssa.Const); ok && k.Value != nil && constant.BoolVal(k.Value) != truth {
+			continue
+		}
+		var fs []*Fact
+		if _, isConst := in.(*ssa.Const); !isConst {
+			o.condFacts(in, truth, &fs, 1)
+		}
+		blk := phi.Block().Preds[i]
+		child := phi.Block()
+		for steps := 0; steps < 8; steps++ {
+			if n := len(blk.Instrs); n > 0 {
+				if ifi, ok := blk.Instrs[n-1].(*ssa.If); ok {
+					s0, s1 := blk.Succs[0] == child, blk.Succs[1] == child
+					if s0 != s1 {
+						o.condFacts(ifi.Cond, s0, &fs, 1)
+					}
+				}
+			}
+			if len(blk.Preds) != 1 {
+				break
+			}
+			child, blk = blk, blk.Preds[0]
+		}
+		out = append(out, fs)
+	}
+	if len(out) < 2 {
+		return nil
+	}
+	return out
+}
+
 // condFact canonicalises "cond evaluates to truth".
 func (o *Origins) condFact(c ssa.Value, truth bool) *Fact {
 	// ok of a look-up in a position index of a list: "a matching element exists" (see indexMapSearch)
